@@ -7,7 +7,7 @@ import copy
 from typing import Dict, List, Set
 
 from .. import aux
-from ..astx import calls_in, dump, f_show, linear, single_assign_value, src, walk_no_nested
+from ..astx import calls_in, canon, dump, f_show, linear, single_assign_value, src, walk_no_nested
 from ..core import AnalysisError, Ctx, rule
 from ..region import Unknown, minieval
 
@@ -171,7 +171,7 @@ def c18_4(ctx: Ctx):
     r = [g for g in lin.stmts if isinstance(g.node, ast.Raise) and "ValueError" in src(g.node)]
     ctx.check(len(r) == 1 and lin.under(r[0], "not (len(matching_rules) == 1)") and lin.under(r[0], "matching_rules"), fi, fi.node, "several matching rules -> ValueError", "changed")
     mr = single_assign_value(fi.node, "matching_rules")
-    ctx.check(mr is not None and "access_type in rule.access_types" in src(mr) and "expr.attributes == rule.get_relevant_attrs(old_defined)" in src(mr), fi, mr or fi.node,
+    ctx.check(mr is not None and "access_type in rule.access_types" in src(mr) and canon("expr.attributes == rule.get_relevant_attrs(old_defined)") in src(mr), fi, mr or fi.node,
               "a rule matches on access type and on the attributes A's kind prescribes", "rule matching changed")
     rets = [n for n in walk_no_nested(fi.node) if isinstance(n, ast.Return)]
     ok = len(rets) == 1 and src(rets[0].value).replace(" ", "") == "gtirb.SymAddrConst(expr.offset,new_symbol,new_attrs)"
